@@ -756,6 +756,33 @@ def stream_canonical(ck, ask, pool, scratch):
             s.expect(ex2 == ("ok", want), inp, "re-export of an accepted CA certificate block v2.1 is not magic | version | recomputed size | record bytes", canon(ex2), want.hex())
             s.expect(safe(lambda: pr[1].isk_certificate) is None, inp, "a block whose root key record has the CA flag is parsed with an ISK certificate")
             ask(f"cb21_parse {hexs(d)}", lambda a, inp=inp, d=d: s.compare(inp, True, isinstance(a, str) and a.startswith("ok:") and a.rstrip().endswith("none"), "model: CA block not parsed without ISK certificate"))
+    # ---- certificate block v2.1 WITH ISK certificate: size word and non-canonical ISK flags word are accepted, the export is canonical
+    for _ in range(ck.budget(8, 60)):
+        bits = rng.choice([256, 384])
+        keys = rng.sample(pool[("ecc", bits)] + pool[("ecc_lz", bits)][:6], rng.choice([1, 2, 3, 4]))
+        used = rng.randrange(len(keys))
+        isk = rng.choice(pool[("ecc", rng.choice([256, 384]))])
+        ud = rng.choice([None, bytes(rng.getrandbits(8) for _ in range(4 * rng.randrange(1, 12)))])
+        ex = pyres(lambda: real_cb21(keys, ["obj_pub"] * len(keys), used, scratch, isk, ud).export())
+        if ex[0] != "ok":
+            s.expect(False, kdesc(keys, used=used, isk=isk.desc()), "CertBlockV21 (ISK) cannot be built / exported", ex)
+            continue
+        data = ex[1]
+        hl_ = 32 if bits == 256 else 48
+        o = 12 + 4 + (hl_ * len(keys) if len(keys) > 1 else 0) + 2 * hl_          # start of the ISK certificate
+        junk = bytes(rng.getrandbits(8) for _ in range(rng.randrange(0, 12)))
+        for name, d in (("intact", data + junk), ("size-word", data[:8] + struct.pack("<I", rng.choice([0, 12, len(data) + 1, 2 ** 32 - 1])) + data[12:] + junk),
+                        ("isk-flags-extra-bit", data[:o + 8] + struct.pack("<I", struct.unpack_from("<I", data, o + 8)[0] | (1 << rng.choice([8, 12, 20, 30]))) + data[o + 12:])):
+            pr = pyres(CertBlockV21.parse, d)
+            s.note(("v21isk", tuple(k.id for k in keys), used, isk.id, name), cls=f"v21isk-{name}-{'accepted' if pr[0] == 'ok' else 'refused'}")
+            inp = {"mutation": name, "data": d}
+            s.expect(pr[0] == "ok", inp, "a certificate block v2.1 with ISK certificate and another size word / extra ISK flag bit is refused", pr[0])
+            if pr[0] != "ok":
+                continue
+            ex2 = pyres(pr[1].export)
+            s.expect(ex2 == ("ok", data), inp, "re-export of an accepted certificate block v2.1 (ISK) is not its canonical form (recomputed size word, recomputed ISK flags)", canon(ex2), data.hex())
+            real = canon(ex2)
+            ask(f"cb21_parse {hexs(d)}", lambda a, inp=inp: s.compare(inp, True, isinstance(a, str) and a.startswith("ok:") and not a.rstrip().endswith("none"), "model: block not parsed with its ISK certificate"))
     ask.flush()
     # ---- lite ISK certificate
     p256 = pool[("ecc", 256)] + pool[("ecc_lz", 256)][:6]
